@@ -34,8 +34,8 @@ package blockchain
 //@   ensures [miss] !ok ==> block == nil && !has(chain.blocks, hash)
 //@   ensures [oracle] ok == (old(has(chain.blocks, hash)) || core.avail(hash))
 //@   ensures [which] ok ==> block == (old(has(chain.blocks, hash)) ? old(chain.blocks[hash]) : core.fetched(hash))
-//@   ensures [stable] forall h hotstuff.Hash :: getok(chain, h) == old(getok(chain, h)) && getblk(chain, h) == old(getblk(chain, h))
-//@   ensures [grow] forall h hotstuff.Hash :: h != hash ==> has(chain.blocks, h) == old(has(chain.blocks, h)) && chain.blocks[h] == old(chain.blocks[h])
+//@   ensures [stable] forall h hotstuff.Hash :: {has(chain.blocks, h)} {old(has(chain.blocks, h))} {core.fetched(h)} getok(chain, h) == old(getok(chain, h)) && getblk(chain, h) == old(getblk(chain, h))
+//@   ensures [grow] forall h hotstuff.Hash :: {has(chain.blocks, h)} {old(has(chain.blocks, h))} h != hash ==> has(chain.blocks, h) == old(has(chain.blocks, h)) && chain.blocks[h] == old(chain.blocks[h])
 //@   modifies chain.blocks[*], chain.blockAtHeight[*], chain.pendingFetch[*], chain.eventLoop.handlers[*], alloc
 
 // ---- ancestry. getok/getblk describe what Get yields for a hash: the stored block, else the
